@@ -158,10 +158,19 @@ theorem compile_total_Fz : ∀ (ex : Bool) (self : String) (e : Expr), Fz ex sel
   | ex, self, .str v, he, isFn, c, gs, hfn, hex | ex, self, .nilLit, he, isFn, c, gs, hfn, hex
   | ex, self, .sym x, he, isFn, c, gs, hfn, hex | ex, self, .arr es, he, isFn, c, gs, hfn, hex
   | ex, self, .def_ x e, he, isFn, c, gs, hfn, hex | ex, self, .set_ x e, he, isFn, c, gs, hfn, hex
-  | ex, self, .and_ es, he, isFn, c, gs, hfn, hex | ex, self, .or_ es, he, isFn, c, gs, hfn, hex
-  | ex, self, .fn _ _ _, he, isFn, c, gs, hfn, hex => by
+  | ex, self, .and_ es, he, isFn, c, gs, hfn, hex | ex, self, .or_ es, he, isFn, c, gs, hfn, hex => by
     rw [Fz] at he
     exact total_of_Ff he isFn c gs hfn
+  | ex, self, .fn ps rest body, he, isFn, c, gs, hfn, hex => by
+    rw [Fz] at he
+    simp only [Bool.or_eq_true] at he
+    rcases he with he | he
+    · exact total_of_Ff he isFn c gs hfn
+    · simp only [Bool.and_eq_true, decide_eq_true_eq, Bool.not_eq_true', List.isEmpty_eq_false_iff] at he
+      obtain ⟨b, tl, g2, hb, _, hk2⟩ := compileBegin_total_Fz ex "" body he.1.2 he.2 isFn (anonCtx c gs)
+        (gsAlloc isFn gs s!"__anon{gs.fns.length}" ps rest) (anonCtx_funcname c gs) hex
+      exact ⟨_, _, _, compile_fn_eq isFn c ps rest body gs g2 b tl hb, by simp,
+        keepFns_fin isFn gs g2 _ ps rest b hk2.1, hk2.2.1, by lsin⟩
   | ex, self, .defn name ps rest body, he, isFn, c, gs, hfn, hex => by
     rw [Fz] at he
     simp only [Bool.or_eq_true] at he
@@ -189,6 +198,16 @@ theorem total_stmt : ∀ (ex : Bool) (self : String) (e : Expr), Fs ex self e = 
         (gsAlloc isFn gs name ps rest) (bodyCtx_funcname c gs name ps rest body) hex
       exact ⟨_, _, _, compile_defn_eq isFn c name ps rest body gs g2 b tl he.1.1.1.1.2 hb, by simp,
         keepFns_fin isFn gs g2 _ ps rest b hk2.1, hk2.2.1, by lsin⟩
+  | ex, self, .fn ps rest body, he, isFn, c, gs, hfn, hex => by
+    rw [Fs] at he
+    simp only [Bool.or_eq_true] at he
+    rcases he with he | he
+    · exact total_stmt0 he isFn c gs hfn hex
+    · simp only [Bool.and_eq_true, decide_eq_true_eq, Bool.not_eq_true', List.isEmpty_eq_false_iff] at he
+      obtain ⟨b, tl, g2, hb, _, hk2⟩ := compileBegin_total_Fz ex "" body he.1.2 he.2 isFn (anonCtx c gs)
+        (gsAlloc isFn gs s!"__anon{gs.fns.length}" ps rest) (anonCtx_funcname c gs) hex
+      exact ⟨_, _, _, compile_fn_eq isFn c ps rest body gs g2 b tl hb, by simp,
+        keepFns_fin isFn gs g2 _ ps rest b hk2.1, hk2.2.1, by lsin⟩
   | ex, self, .call _ _, he, isFn, c, gs, hfn, hex | ex, self, .begin_ _, he, isFn, c, gs, hfn, hex
   | ex, self, .cond _ _, he, isFn, c, gs, hfn, hex | ex, self, .newScope _, he, isFn, c, gs, hfn, hex
   | ex, self, .let_ _ _ _, he, isFn, c, gs, hfn, hex | ex, self, .for_ _ _ _ _ _, he, isFn, c, gs, hfn, hex
@@ -197,7 +216,7 @@ theorem total_stmt : ∀ (ex : Bool) (self : String) (e : Expr), Fs ex self e = 
   | ex, self, .sym _, he, isFn, c, gs, hfn, hex | ex, self, .arr _, he, isFn, c, gs, hfn, hex
   | ex, self, .def_ _ _, he, isFn, c, gs, hfn, hex | ex, self, .set_ _ _, he, isFn, c, gs, hfn, hex
   | ex, self, .and_ _, he, isFn, c, gs, hfn, hex | ex, self, .or_ _, he, isFn, c, gs, hfn, hex
-  | ex, self, .fn _ _ _, he, isFn, c, gs, hfn, hex | ex, self, .assign _ _, he, isFn, c, gs, hfn, hex
+  | ex, self, .assign _ _, he, isFn, c, gs, hfn, hex
   | ex, self, .bad _, he, isFn, c, gs, hfn, hex | ex, self, .break_ _, he, isFn, c, gs, hfn, hex
   | ex, self, .continue_ _, he, isFn, c, gs, hfn, hex => by
     rw [Fs] at he
@@ -925,6 +944,22 @@ theorem simF_defnZ {n : Nat} {ex : Bool} {name : String} {ps : List String} {res
       (gsAlloc isFn gs name ps rest) (bodyCtx_funcname c gs name ps rest body) hex
     exact simF_defn_core name ps rest body hrest hname hne hnd hps hbody hfz hex isFn c g2 b tl hb hk2.1 r hc hrel hgen hseg
 
+/-- an anonymous function whose body is in `FzList` (loops with exits in its body) -/
+theorem simF_fnZ {n : Nat} {ex : Bool} {ps : List String} {rest : Option String} {body : List Expr}
+    (hrest : okRest rest = true) (hnd : (ps ++ rest.toList).Nodup)
+    (hps : ∀ p ∈ ps, okParam p = true) (hbody : body ≠ []) (hfz : FzList ex "" body = true)
+    (isFn : Nat → Bool) (c : Ctx) (gs : GS) (hex : ex = true → gs.loopstack = [])
+    (r : (List Instr × Bool) × GS) (hc : (compile isFn c (.fn ps rest body)).run gs = .ok r)
+    (m : Nat → Nat) (s : St) (rs : Ref.St) (env : Nat) (pre post : List Instr)
+    (hrel : RelF m s rs env) (hgen : GenOk gs r.2 s) (hseg : Seg s pre r.1.1 post) :
+    SimF r.1.1 m s rs env (Ref.eval n (.fn ps rest body) env rs) := by
+  cases n with
+  | zero => rw [Ref.eval]; trivial
+  | succ k =>
+    obtain ⟨b, tl, g2, hb, _, hk2⟩ := compileBegin_total_Fz ex "" body hbody hfz isFn (anonCtx c gs)
+      (gsAlloc isFn gs s!"__anon{gs.fns.length}" ps rest) (anonCtx_funcname c gs) hex
+    exact simF_fn_core ps rest body hrest hnd hps hbody hfz hex isFn c g2 b tl hb hk2.1 r hc hrel hgen hseg
+
 /-- a statement that is not in tail position: a form of F2, or (`ex`) one whose loops `break`/`continue`, or a nested
 `defn` with self tail calls / loops with exits in its body -/
 theorem simF_stmt {n : Nat} (hFE : FClaimE n) (hXE : XClaimE n) {ex : Bool} {self : String} {e : Expr}
@@ -934,8 +969,10 @@ theorem simF_stmt {n : Nat} (hFE : FClaimE n) (hXE : XClaimE n) {ex : Bool} {sel
     (hrel : RelF m s rs env) (hgen : GenOk gs r.2 s) (hlo : LsOut pre gs.loops.length r.2.loops.length)
     (hseg : Seg s pre r.1.1 post) : SimF r.1.1 m s rs env (Ref.eval n e env rs) := by
   rcases fs_cases he with he | ⟨name, ps, rest, body, rfl, hrest, hname, hne, hnd, hps, hbody, hfz⟩
+    | ⟨ps, rest, body, rfl, hrest, hnd, hps, hbody, hfz⟩
   rotate_left
   · exact simF_defnZ hrest hname hne hnd hps hbody hfz isFn c gs hex r hc m s rs env pre post hrel hgen hseg
+  · exact simF_fnZ hrest hnd hps hbody hfz isFn c gs hex r hc m s rs env pre post hrel hgen hseg
   cases ex with
   | false => exact hFE true self e (by simpa using he) isFn c gs r hc hfn m s rs env pre post hrel (fun _ => hgen) hseg
   | true =>
@@ -1295,7 +1332,14 @@ theorem tclaimE_succ {n : Nat} (hFE1 : FClaimE (n + 1)) (hXE1 : XClaimE (n + 1))
   | set_ x e => rw [Fz] at he; exact hff he
   | and_ es => rw [Fz] at he; exact hff he
   | or_ es => rw [Fz] at he; exact hff he
-  | fn ps' rest body => rw [Fz] at he; exact hff he
+  | fn ps' rest' body =>
+    rw [Fz] at he
+    simp only [Bool.or_eq_true] at he
+    rcases he with he | he
+    · exact hff he
+    · simp only [Bool.and_eq_true, decide_eq_true_eq, Bool.not_eq_true', List.isEmpty_eq_false_iff, List.all_eq_true] at he
+      exact (simF_fnZ he.1.1.1.1 he.1.1.1.2 he.1.1.2 he.1.2 he.2 isFn c gs hex r hc m s rs cenv
+        pre post hrel hgen hseg).toT
   | defn name ps' rest' body =>
     rw [Fz] at he
     simp only [Bool.or_eq_true] at he
